@@ -262,14 +262,62 @@ Fixpoint scan_slots (rs : list N) : N :=
   | e :: r => if e =? E_OK then scan_slots r else e
   end.
 
+(* curator-side faults: cf = list of (call, code); call 1 = StatBlob, 2 = GetTracts, 3 = ExtendBlob, 4 = AckExtendBlob,
+   5 = the master's LookupPartition; code = which + 10 * errkind; which = 0 / 1: the first / second such call of the
+   operation fails, 9: every one; errkind 0 = ErrRPC (retriable, class E_FAULT), otherwise a non-retriable error
+   (class E_OTHER). The harness empties the lookup cache before such an operation, so no call is retried by statBlob /
+   readAt's "maybe the wrong curator" logic. *)
+Definition C_STAT : N := 1.  Definition C_GET : N := 2.  Definition C_EXTEND : N := 3.
+Definition C_ACK : N := 4.   Definition C_LOOKUP : N := 5.
+
+Definition cerr (cf : list (N * N)) (call which : N) : option N :=
+  match find (fun x => (fst x =? call) && ((snd x mod 10 =? which) || (snd x mod 10 =? 9))) cf with
+  | Some x => Some (if snd x / 10 =? 0 then E_FAULT else E_OTHER)
+  | None => None
+  end.
+
+(* first failure of a sequence of steps *)
+Definition orelse (a b : option N) : option N := match a with Some e => Some e | None => b end.
+Definition ts_fail (fl : list (N * N)) (attempt repl first cnt : N) : option N :=
+  let e := scan_slots (slot_results fl attempt repl first cnt) in if e =? E_OK then None else Some e.
+
 (* writeAt with faults armed. The model keeps ONE copy per tract, so it represents only states in which all replicas
    agree: a failed writeExistingTracts (after which replicas may differ inside the written range) leaves the model's
    tracts unchanged, and the harness re-issues the same write without faults before any other operation.
-   - writeExistingTracts: a failing slot with tractsWereCached invalidates the cache entry and runs the whole
-     function again (fresh GetTracts); a second failure (or an uncached first one) returns (0, err).
-   - createEmptyTracts / createWriteTracts run once; on failure nothing is acknowledged to the curator and writeAt
-     returns (writePos, err): the part written to existing tracts stays, hole tracts already acknowledged stay. *)
-Definition write_at_f (tl repl : N) (fl : list (N * N)) (st : cstate) (off : Z) (b : runs) : (N * N) * cstate :=
+   - statBlob: lookup, StatBlob; an error returns (0, err).
+   - writeExistingTracts: getTracts (a curator error returns (0, err)); a failing replica slot with tractsWereCached
+     invalidates the cache entry and runs the whole function again (fresh GetTracts); a second failure (or an
+     uncached first one) returns (0, err).
+   - createEmptyTracts / createWriteTracts run once: ExtendBlob, the tractserver creates, AckExtendBlob; EACH step's
+     error is returned (the ack's too: nothing is acknowledged to the caller unless the curator committed the
+     tracts), writeAt then returns (writePos, err): the part written to existing tracts stays, hole tracts already
+     acknowledged stay. *)
+Definition write_create_part (tl repl : N) (fl cf : list (N * N)) (n start end_ o : N) (off : Z) (b : runs) (s : cstate)
+  : (N * N) * cstate :=
+      if n <? end_ then
+        if n <? start then
+          (* a hole: createEmptyTracts [n, start), then createWriteTracts [start, end) *)
+          match orelse (cerr cf C_EXTEND 0) (orelse (ts_fail fl 0 repl n (start - n)) (cerr cf C_ACK 0)) with
+          | Some e => ((0, e), s)
+          | None =>
+              let s1 := set_tracts s (create_empty (N.to_nat (start - n)) n (tracts s)) start in
+              match orelse (cerr cf C_EXTEND 1) (orelse (ts_fail fl 0 repl start (end_ - start)) (cerr cf C_ACK 1)) with
+              | Some e => ((0, e), s1)
+              | None => write_at tl s off b
+              end
+          end
+        else
+          match orelse (cerr cf C_EXTEND 0) (orelse (ts_fail fl 0 repl n (end_ - n)) (cerr cf C_ACK 0)) with
+          | Some e =>
+              if start <? n then
+                (* the part in existing tracts was written, the new tracts failed *)
+                let '((wp, _), s') := write_at tl s off (rtake (n * tl - o) b) in ((wp, e), s')
+              else ((0, e), s)
+          | None => write_at tl s off b
+          end
+      else write_at tl s off b.
+
+Definition write_at_f (tl repl : N) (fl cf : list (N * N)) (st : cstate) (off : Z) (b : runs) : (N * N) * cstate :=
   if (off <? 0)%Z then ((0, E_INVAL), st)
   else if rlen b =? 0 then ((0, E_OK), st)
   else
@@ -277,28 +325,36 @@ Definition write_at_f (tl repl : N) (fl : list (N * N)) (st : cstate) (off : Z) 
     let start := o / tl in
     let end_ := (o + rlen b + tl - 1) / tl in
     let n := ntr st in
-    let create_part (s : cstate) : (N * N) * cstate :=
-      if (n <? end_) && negb (scan_slots (slot_results fl 0 repl n (end_ - n)) =? E_OK) then
-        if start <? n then
-          (* the part in existing tracts was written, the new tracts failed *)
-          let '((wp, _), s') := write_at tl s off (rtake (n * tl - o) b) in ((wp, E_FAULT), s')
-        else if negb (scan_slots (slot_results fl 0 repl n (start - n)) =? E_OK) then ((0, E_FAULT), s)
-        else ((0, E_FAULT),
-              set_tracts s (create_empty (N.to_nat (start - n)) n (tracts s)) (N.max n start))
-      else write_at tl s off b in
-    if start <? n then
-      let e := N.min end_ n in
-      if negb (scan_slots (slot_results fl 0 repl start (e - start)) =? E_OK) then
+    let create_part := write_create_part tl repl fl cf n start end_ o off b in
+    match orelse (cerr cf C_LOOKUP 0) (cerr cf C_STAT 0) with
+    | Some e => ((0, e), st)
+    | None =>
+      if start <? n then
+        let e := N.min end_ n in
         let '(_, stg) := get_tracts st start e in
-        if rpcs stg =? rpcs st then
-          (* tractsWereCached: invalidate, run writeExistingTracts again *)
-          let st1 := drop_cache stg in
-          if negb (scan_slots (slot_results fl 1 repl start (e - start)) =? E_OK)
-          then let '(_, st2) := get_tracts st1 start e in ((0, E_FAULT), st2)
-          else create_part st1
-        else ((0, E_FAULT), stg)
+        let cached := rpcs stg =? rpcs st in
+        match (if cached then None else cerr cf C_GET 0) with
+        | Some er => ((0, er), st)
+        | None =>
+          match ts_fail fl 0 repl start (e - start) with
+          | Some er =>
+              if cached then
+                (* tractsWereCached: invalidate, run writeExistingTracts again *)
+                let st1 := drop_cache stg in
+                match cerr cf C_GET 0 with
+                | Some e2 => ((0, e2), st1)
+                | None =>
+                    match ts_fail fl 1 repl start (e - start) with
+                    | Some e2 => let '(_, st2) := get_tracts st1 start e in ((0, e2), st2)
+                    | None => create_part st1
+                    end
+                end
+              else ((0, er), stg)
+          | None => create_part st
+          end
+        end
       else create_part st
-    else create_part st.
+    end.
 
 (* ---------- byteLength ---------- *)
 Definition byte_length (tl : N) (st : cstate) : N * cstate :=
@@ -307,6 +363,28 @@ Definition byte_length (tl : N) (st : cstate) : N * cstate :=
   else
     let '(_, st1) := get_tracts st (n - 1) n in
     ((n - 1) * tl + rlen (tracts st1 (n - 1)), st1).
+
+(* readAt / byteLength with curator faults armed (lookup cache emptied by the harness first): a failing lookup or
+   StatBlob returns the error; a failing GetTracts (only issued when the tracts are not cached) returns (0, err) *)
+Definition read_at_c (v : variant) (tl : N) (cf : list (N * N)) (st : cstate) (off : Z) (k : N)
+  : (N * N * runs) * cstate :=
+  if (off <? 0)%Z || (k =? 0) then read_at v tl st off k
+  else match cerr cf C_LOOKUP 0 with
+       | Some e => ((0, e, []), st)
+       | None =>
+           let '(r, st1) := read_at v tl st off k in
+           if rpcs st1 =? rpcs st then (r, st1)
+           else match cerr cf C_GET 0 with Some e => ((0, e, []), st) | None => (r, st1) end
+       end.
+
+Definition byte_length_c (tl : N) (cf : list (N * N)) (st : cstate) : (N * N) * cstate :=
+  match orelse (cerr cf C_LOOKUP 0) (cerr cf C_STAT 0) with
+  | Some e => ((0, e), st)
+  | None =>
+      let '(l, st1) := byte_length tl st in
+      if rpcs st1 =? rpcs st then ((l, E_OK), st1)
+      else match cerr cf C_GET 0 with Some e => ((0, e), st) | None => ((l, E_OK), st1) end
+  end.
 
 (* ---------- blob.go: Blob ---------- *)
 Definition blob_read (v : variant) (tl : N) (st : cstate) (k : N) : (N * N * runs) * cstate :=
@@ -378,7 +456,9 @@ Inductive op :=
 | OCache (on : bool)
 | OReadAtF (off : Z) (k : N) (fl : list (N * N))   (* ReadAt while the listed tractserver read faults are armed *)
 | OReadF (k : N) (fl : list (N * N))               (* Read under faults *)
-| OWriteAtF (repl : N) (off : Z) (d : runs) (fl : list (N * N))  (* WriteAt while per-replica write faults are armed *)
+| OWriteAtF (repl : N) (off : Z) (d : runs) (fl cf : list (N * N))  (* WriteAt while per-replica write faults fl / curator faults cf are armed *)
+| OReadAtC (off : Z) (k : N) (cf : list (N * N))   (* ReadAt while curator faults are armed *)
+| OLenC (cf : list (N * N))                        (* ByteLength while curator faults are armed *)
 | ODropCache         (* tractCache.invalidate(blob): the harness does this when the blob's tracts move to RS storage *)
 | OReopen            (* Client.Open: a fresh Blob (offset 0) and a fresh ReadaheadBlob on it *)
 | ORaNew.            (* NewReadaheadBlob on the current Blob *)
@@ -408,7 +488,9 @@ Definition step (v : variant) (tl : N) (st : cstate) (o : op) : res * cstate :=
   | ORaLen => let '(l, st1) := byte_length tl st in mk st1 (Z.of_N l) E_OK []
   | OReadAtF off k fl => let '((n, e, d), st1) := read_at_f v tl fl st off k in mk st1 (Z.of_N n) e d
   | OReadF k fl => let '((n, e, d), st1) := blob_read_f v tl fl st k in mk st1 (Z.of_N n) e d
-  | OWriteAtF repl off d fl => let '((n, e), st1) := write_at_f tl repl fl st off d in mk st1 (Z.of_N n) e []
+  | OWriteAtF repl off d fl cf => let '((n, e), st1) := write_at_f tl repl fl cf st off d in mk st1 (Z.of_N n) e []
+  | OReadAtC off k cf => let '((n, e, d), st1) := read_at_c v tl cf st off k in mk st1 (Z.of_N n) e d
+  | OLenC cf => let '((l, e), st1) := byte_length_c tl cf st in mk st1 (Z.of_N l) e []
   | ODropCache => mk (drop_cache st) 0%Z E_OK []
   | OCache on => mk (set_cache_on st on) 0%Z E_OK []
   | OReopen =>
@@ -490,7 +572,7 @@ Fixpoint srun (tl : N) (f : sfile) (ops : list op) : list sres :=
   end.
 
 Definition direct_op (o : op) : bool :=
-  match o with ORaRead _ | ORaSeek _ _ | ORaLen | OReadAtF _ _ _ | OReadF _ _ | OWriteAtF _ _ _ _ | ODropCache => false | _ => true end.
+  match o with ORaRead _ | ORaSeek _ _ | ORaLen | OReadAtF _ _ _ | OReadF _ _ | OWriteAtF _ _ _ _ _ | OReadAtC _ _ _ | OLenC _ | ODropCache => false | _ => true end.
 
 (* ---------- wire format ---------- *)
 (* ops:  0 fix16 fix17 cacheOn [fix17b]   (first line of a case: which code variant, initial cache flag)
@@ -508,8 +590,10 @@ Definition direct_op (o : op) : bool :=
          12                                NewReadahead   < 0
          13 off k nf (tract kind)...       ReadAt with read faults armed   < as 2
          14 k nf (tract kind)...           Read with read faults armed     < as 4
-         15 repl off nruns (len val)... nf (tract code)...   WriteAt with write faults armed   < as 1
-         16                                drop the blob's tract cache entry < 0                *)
+         15 repl off nruns (len val)... nf (tract code)... [nc (call code)...]   WriteAt with write / curator faults armed   < as 1
+         16                                drop the blob's tract cache entry < 0
+         17 off k nc (call code)...        ReadAt with curator faults armed     < as 2
+         18 nc (call code)...              ByteLength with curator faults armed < as 6        *)
 Fixpoint dec_pairs (n : nat) (l : list Z) : option runs :=
   match n with
   | O => match l with [] => Some [] | _ => None end
@@ -555,11 +639,20 @@ Definition dec_op (l : list Z) : option op :=
   | 15%Z :: repl :: off :: nr :: r =>
       if (nr <? 0)%Z || (repl <? 0)%Z then None else
       match dec_pairs_rest (Z.to_nat nr) r with
-      | Some (d, rest) => match dec_runs rest with
-                          | Some fl => Some (OWriteAtF (Z.to_N repl) off d fl)
-                          | None => None end
+      | Some (d, nf :: rest) =>
+          if (nf <? 0)%Z then None else
+          match dec_pairs_rest (Z.to_nat nf) rest with
+          | Some (fl, []) => Some (OWriteAtF (Z.to_N repl) off d fl [])
+          | Some (fl, rest2) => match dec_runs rest2 with
+                                | Some cf => Some (OWriteAtF (Z.to_N repl) off d fl cf)
+                                | None => None end
+          | None => None end
+      | Some (_, []) => None
       | None => None end
   | [16%Z] => Some ODropCache
+  | 17%Z :: off :: k :: r => if (k <? 0)%Z then None else
+      match dec_runs r with Some cf => Some (OReadAtC off (Z.to_N k) cf) | None => None end
+  | 18%Z :: r => match dec_runs r with Some cf => Some (OLenC cf) | None => None end
   | 14%Z :: k :: r => if (k <? 0)%Z then None else
       match dec_runs r with Some fl => Some (OReadF (Z.to_N k) fl) | None => None end
   | _ => None
@@ -572,7 +665,7 @@ Definition enc_runs (r : runs) : list Z :=
 Definition enc_res (o : op) (x : res) : list Z :=
   let hdr := [r_n x; Z.of_N (r_err x); r_pos x; Z.of_N (r_rpc x)] in
   match o with
-  | OReadAt _ _ | ORead _ | OReadAtF _ _ _ | OReadF _ _ => hdr ++ enc_runs (r_data x)
+  | OReadAt _ _ | ORead _ | OReadAtF _ _ _ | OReadF _ _ | OReadAtC _ _ _ => hdr ++ enc_runs (r_data x)
   | ORaRead _ => [r_n x; Z.of_N (r_err x); r_pos x; Z.of_N (r_buf x); Z.of_N (r_rpc x)] ++ enc_runs (r_data x)
   | ORaSeek _ _ => [r_n x; Z.of_N (r_err x); r_pos x; Z.of_N (r_buf x); Z.of_N (r_rpc x)]
   | OCache _ | ORaNew | ODropCache => [0%Z]
